@@ -164,6 +164,17 @@ type Case struct {
 	// Helpers: the texts of every query, header and form request are also handed to the exported readers
 	// runtime.ReadSingleValue and runtime.ReadCollectionValue (last occurrence; split items)
 	Helpers bool `json:"helpers,omitempty"`
+	// AReqs (two-application cases): the description is served by TWO applications alive in the same process
+	// (two untyped.API values, each with its own format registry; see meaning), and these requests are sent, in
+	// this order, to the application each one names. What a format name means is the business of the
+	// application that binds the request, whatever another application bound before.
+	AReqs []AReq `json:"areqs,omitempty"`
+}
+
+// AReq is one request of a two-application case.
+type AReq struct {
+	App int `json:"app"` // 0: the first application, 1: the second
+	Req
 }
 
 // dcl is one declaration with everything that belongs to it.
@@ -243,6 +254,72 @@ func (t verifTag) MarshalText() ([]byte, error)  { return []byte(t), nil }
 func (t *verifTag) UnmarshalText(b []byte) error { *t = verifTag(b); return nil }
 func isTag(s string) bool                        { return reTag.MatchString(s) }
 
+// verifLabel is the Go type the SECOND application of a two-application case registers for its formats: the
+// texts l-<one to six digits> in either letter case; a text denotes its upper-case spelling.
+type verifLabel string
+
+// labelFormat is the monitor's own name for "the text is judged as a verifLabel" (never declared as such).
+const labelFormat = "x-verif-label"
+
+// Format names of two-application cases (a fresh suffix follows the prefix): the name is registered by the
+// first application only (as verifTag), by the second only (as verifLabel), by both (verifTag / verifLabel).
+const (
+	firstOnlyPrefix  = "x-verif-first-"
+	secondOnlyPrefix = "x-verif-second-"
+	bothPrefix       = "x-verif-both-"
+)
+
+var reLabel = regexp.MustCompile(`^[lL]-[0-9]{1,6}$`)
+
+func (t verifLabel) String() string               { return string(t) }
+func (t verifLabel) MarshalText() ([]byte, error) { return []byte(t), nil }
+func (t *verifLabel) UnmarshalText(b []byte) error {
+	if !reLabel.Match(b) {
+		return fmt.Errorf("%q is not a label", b)
+	}
+	*t = verifLabel(strings.ToUpper(string(b)))
+	return nil
+}
+func isLabel(s string) bool { return reLabel.MatchString(s) }
+
+// meaning: what the format NAME of a declaration means to application app (0: the first, 1: the second) of a
+// two-application case, as a format this monitor judges: a name the application's registry does not know
+// denotes nothing beyond "string" (any text is a valid string and denotes itself).
+func meaning(app int, format string) string {
+	switch {
+	case format == tagFormat, strings.HasPrefix(format, firstOnlyPrefix):
+		if app == 0 {
+			return tagFormat
+		}
+		return ""
+	case strings.HasPrefix(format, secondOnlyPrefix):
+		if app == 0 {
+			return ""
+		}
+		return labelFormat
+	case strings.HasPrefix(format, bothPrefix):
+		if app == 0 {
+			return tagFormat
+		}
+		return labelFormat
+	}
+	return format
+}
+
+// relation: how the two registries of a two-application case differ about a format name (for signatures).
+func relation(app int, format string) string {
+	here, there := meaning(app, format), meaning(1-app, format)
+	switch {
+	case here == there:
+		return "format-means-the-same-to-both"
+	case here == "":
+		return "format-unknown-here-registered-by-the-other-application"
+	case there == "":
+		return "format-registered-here-unknown-to-the-other-application"
+	}
+	return "format-registered-with-another-type-by-the-other-application"
+}
+
 // registry: the registered formats of the struct-target binders (the default ones and the application's own)
 var registry = func() strfmt.Registry {
 	r := strfmt.NewFormats()
@@ -264,7 +341,7 @@ var durationUnit = map[string]time.Duration{"ns": time.Nanosecond, "us": time.Mi
 // validatedFormat: string formats whose texts are checked after binding (an empty text is a text to them)
 func validatedFormat(format string) bool {
 	switch format {
-	case "uuid", "email", "hostname", "duration", tagFormat:
+	case "uuid", "email", "hostname", "duration", tagFormat, labelFormat:
 		return true
 	}
 	return false
@@ -316,6 +393,11 @@ func scalar(tpe, format, text string) (canon []string, ok bool, either bool) {
 		case tagFormat:
 			if isTag(text) {
 				return []string{"tag:" + text}, true, false
+			}
+			return nil, false, false
+		case labelFormat:
+			if isLabel(text) {
+				return []string{"label:" + strings.ToUpper(text)}, true, false
 			}
 			return nil, false, false
 		case "email":
@@ -443,6 +525,8 @@ func zeroCanon(tpe, format string) string {
 			return "duration:0"
 		case tagFormat:
 			return "tag:"
+		case labelFormat:
+			return "label:"
 		}
 		return "string:"
 	case "integer":
@@ -887,6 +971,8 @@ func canonOf(v interface{}) string {
 		return fmt.Sprintf("duration:%d", int64(x))
 	case verifTag:
 		return "tag:" + string(x)
+	case verifLabel:
+		return "label:" + string(x)
 	case strfmt.Base64:
 		return fmt.Sprintf("bytes:%x", []byte(x))
 	case []byte:
@@ -947,6 +1033,7 @@ func scramble(v interface{}) {
 }
 
 type sut struct {
+	peer      *sut // the second application of a two-application case
 	handler   http.Handler
 	mutate    bool
 	ran       int
@@ -1095,6 +1182,16 @@ func (c *Case) docJSON() []byte {
 }
 
 func build(c *Case) (*sut, error) {
+	s, err := buildApp(c, 0)
+	if err == nil && len(c.AReqs) > 0 {
+		s.peer, err = buildApp(c, 1)
+	}
+	return s, err
+}
+
+// buildApp builds one application serving the case's description. Application 0 is the application of every
+// case; application 1 exists in two-application cases only and has its own document and format registry.
+func buildApp(c *Case, app int) (*sut, error) {
 	doc, err := loads.Analyzed(json.RawMessage(c.docJSON()), "")
 	if err != nil {
 		return nil, err
@@ -1103,8 +1200,33 @@ func build(c *Case) (*sut, error) {
 	api := untyped.NewAPI(doc)
 	api.RegisterConsumer("application/x-www-form-urlencoded", runtime.DiscardConsumer)
 	api.RegisterConsumer("multipart/form-data", runtime.DiscardConsumer)
-	var tg verifTag
-	api.RegisterFormat(tagFormat, &tg, isTag) // the application's own format
+	if app == 0 {
+		var tg verifTag
+		api.RegisterFormat(tagFormat, &tg, isTag) // the application's own format
+	}
+	if len(c.AReqs) > 0 {
+		// every format name the declarations use is registered (or not) as meaning says
+		seen := map[string]bool{tagFormat: true}
+		for i := range c.Decls {
+			for _, f := range []string{c.Decls[i].Format, c.Decls[i].ItemsFormat} {
+				if seen[f] {
+					continue
+				}
+				seen[f] = true
+				if f == meaning(app, f) {
+					continue // a built-in format, or none
+				}
+				switch meaning(app, f) {
+				case tagFormat:
+					var t verifTag
+					api.RegisterFormat(f, &t, isTag)
+				case labelFormat:
+					var l verifLabel
+					api.RegisterFormat(f, &l, isLabel)
+				}
+			}
+		}
+	}
 	for _, op := range c.plan() {
 		api.RegisterOperation(op.method, op.template, runtime.OperationHandlerFunc(func(params interface{}) (interface{}, error) {
 			s.ran++
@@ -1711,6 +1833,7 @@ func runCase(m sink, c *Case, isolate bool) {
 	for mi := range c.MReqs {
 		runMulti(m, c, s, mi)
 	}
+	runApps(m, c, s)
 	m.Note("handler_runs_followed_by_in_place_writes", s.scrambled)
 	if mm, isMon := m.(*mon.M); isMon && mm.WantSample() {
 		sc := Case{}
@@ -1722,6 +1845,181 @@ func runCase(m sink, c *Case, isolate bool) {
 		}
 		mm.Sample(sc)
 	}
+}
+
+// viewFor: the declaration as application app reads it (its format names replaced by what they mean to it).
+func viewFor(d *dcl, app int) *dcl {
+	p := *d.Param
+	p.Format, p.ItemsFormat = meaning(app, p.Format), meaning(app, p.ItemsFormat)
+	return &dcl{Param: &p, X: d.X, Form: d.Form}
+}
+
+// runApps sends the requests of a two-application case, each to the application it names, and judges every
+// answer by what the declaration means to THAT application (its own format registry). A violation is filed
+// with the declaration alone and its requests up to the offending one (what was bound before, by whom, is
+// part of the input).
+func runApps(m sink, c *Case, s *sut) {
+	if len(c.AReqs) == 0 || s.peer == nil {
+		return
+	}
+	apps := []*sut{s, s.peer}
+	boundBy := map[int]map[int]bool{} // declaration -> applications that were sent a request for it
+	for ai := range c.AReqs {
+		ar := &c.AReqs[ai]
+		if ar.App < 0 || ar.App > 1 || ar.D < 0 || ar.D >= len(c.Decls) {
+			continue
+		}
+		rq := &ar.Req
+		d := c.decl(rq.D)
+		req, ok := c.request(rq)
+		if !ok {
+			m.Class("undeliverable")
+			continue
+		}
+		fname := d.Format
+		if d.Type == "array" {
+			fname = d.ItemsFormat
+		}
+		view := viewFor(d, ar.App)
+		exp := expect(view, rq)
+		history := "first-application-to-bind-the-format-name"
+		if boundBy[rq.D] == nil {
+			boundBy[rq.D] = map[int]bool{}
+		}
+		if boundBy[rq.D][1-ar.App] {
+			history = "after-the-other-application-bound-the-format-name"
+		}
+		boundBy[rq.D][ar.App] = true
+		shapeClass := "scalar"
+		if d.Type == "array" {
+			shapeClass = "array"
+		}
+		feat := "two-applications/" + relation(ar.App, fname) + "/" + d.In + "-" + shapeClass
+		a := apps[ar.App]
+		a.ran, a.got = 0, nil
+		rec := httptest.NewRecorder()
+		pv, st := mon.Catch(func() { a.handler.ServeHTTP(rec, req) })
+		m.Eval(1)
+		m.NT(fmt.Sprintf("two-applications|%d|%s|%s|%s|%s|%s", ar.App, relation(ar.App, fname), d.In, shapeClass, history, strings.Join(mon.SQ(rq.Texts), "\x00")))
+		m.Class("two-applications:" + relation(ar.App, fname))
+		m.Class("two-applications:" + history)
+		file := func(sig, detail string) {
+			o := c.subset(rq.D, nil)
+			for j := 0; j <= ai; j++ {
+				if c.AReqs[j].D == rq.D {
+					r := c.AReqs[j]
+					r.D = 0
+					o.AReqs = append(o.AReqs, r)
+				}
+			}
+			m.Violate(sig, detail, o)
+		}
+		descr := func() string {
+			db, _ := json.Marshal(c.paramObj(rq.D))
+			return fmt.Sprintf("application %d of two in one process (%s; to it the format means %q); %s; decl=%s form=%q texts=%q -> status %d body %.140q handler=%d got=%s ; expected: %s",
+				ar.App, relation(ar.App, fname), meaning(ar.App, fname), history, db, d.Form, mon.SQ(rq.Texts), rec.Code, rec.Body.String(), a.ran, gotCanon(a, d), expString(&exp))
+		}
+		switch {
+		case pv != nil:
+			file("panic/"+feat, fmt.Sprintf("panic: %v ; %s\n%s", pv, descr(), st))
+		case exp.either:
+			m.Class("not-judged")
+			if rec.Code >= 500 {
+				file("server-error/"+feat, descr())
+			}
+		case exp.reject && a.ran != 0:
+			file("accepted-invalid/"+feat, descr())
+		case exp.reject && rec.Code != 422:
+			file(fmt.Sprintf("reject-status-%d/%s", rec.Code, feat), descr())
+		case exp.reject && !names(rec.Body.String(), d.Name):
+			file("422-does-not-name-parameter/"+feat, descr())
+		case exp.reject:
+			m.Class("rejected-422")
+		case a.ran != 1:
+			file(fmt.Sprintf("refused-valid-status-%d/%s", rec.Code, feat), descr())
+		default:
+			got, okv := gotCanon(a, d), false
+			for _, acc := range exp.accepts {
+				okv = okv || acc == got
+			}
+			if !okv {
+				file("wrong-value/"+feat, descr())
+			} else {
+				m.Class("bound")
+			}
+		}
+	}
+}
+
+// TRIAGE-PENDING: an array whose ITEMS carry a format an application registers itself (api.RegisterFormat; the
+// items are bound to the registered Go type) is answered 422 "<name>.0 in <location> must be of type string" for
+// valid items on the unchanged tree, in a single application too (witness: /tmp/alarms5/C03-array-of-registered-format-items.json).
+// Such arrays are not generated for two-application cases until that is triaged; set to false to generate them.
+const triagePendingRegisteredItems = false
+
+// freshFormats counts the format names handed out to two-application cases: every declaration of such a case
+// gets a name no earlier case of this process used, so that the order of its own requests decides who binds
+// the name first.
+var freshFormats = 0
+
+// genApps draws a two-application case: string declarations (scalars and arrays, every location) whose format
+// name means different things to the two applications, plus names that mean the same to both; for each
+// declaration a run of requests to both applications, either of them first.
+func genApps(r *rand.Rand) *Case {
+	c := &Case{}
+	type loc struct{ in, form string }
+	locs := []loc{{"query", ""}, {"header", ""}, {"path", ""}, {"formData", "urlencoded"}, {"formData", "multipart"}}
+	texts := []string{"t12ab", "tx", "l-12", "L-7", "l-000123", "spring sale", "T12", "l-", "x", "2021-02-03", "t-12"}
+	k := 0
+	for _, prefix := range []string{firstOnlyPrefix, secondOnlyPrefix, bothPrefix, tagFormat, "date", ""} {
+		for _, l := range locs {
+			if r.Intn(3) == 0 && prefix != firstOnlyPrefix && prefix != secondOnlyPrefix {
+				continue
+			}
+			format := prefix
+			if strings.HasSuffix(prefix, "-") {
+				freshFormats++
+				format = fmt.Sprintf("%s%d", prefix, freshFormats)
+			}
+			p := gen.Param{Name: fmt.Sprintf("p%d", k%7), In: l.in, Type: "string", Format: format, Required: l.in == "path" || r.Intn(4) == 0}
+			if l.in == "header" {
+				p.Name = "X-Ref"
+			}
+			isArray := r.Intn(3) == 0
+			if isArray && triagePendingRegisteredItems && (meaning(0, format) != format || meaning(1, format) != format) {
+				isArray = false
+			}
+			if isArray {
+				p.Type, p.Format, p.ItemsType, p.ItemsFormat = "array", "", "string", format
+				p.CollectionFormat = []string{"csv", "pipes", "ssv"}[r.Intn(3)]
+			}
+			c.Decls = append(c.Decls, p)
+			c.Forms = append(c.Forms, l.form)
+			d := c.decl(k)
+			first := r.Intn(2)
+			n := 5 + r.Intn(4)
+			for j := 0; j < n; j++ {
+				app := first
+				if j > 0 && r.Intn(2) == 0 {
+					app = 1 - first
+				}
+				if j == 1 {
+					app = 1 - first // both applications are asked, in either order
+				}
+				text := texts[r.Intn(len(texts))]
+				if isArray && r.Intn(2) == 0 {
+					text += sepOf(d.CollectionFormat) + texts[r.Intn(len(texts))]
+				}
+				rq := Req{D: k, Texts: []mon.Q{mon.Q(text)}}
+				if l.in != "path" && r.Intn(8) == 0 {
+					rq = Req{D: k, Absent: true}
+				}
+				c.AReqs = append(c.AReqs, AReq{App: app, Req: rq})
+			}
+			k++
+		}
+	}
+	return c
 }
 
 // readers hands the texts of one request to the exported readers of package runtime, the way a generated
@@ -3590,6 +3888,13 @@ func run(m *mon.M) {
 			m.Begin(c)
 			runCase(m, c, true)
 			m.Note("operations_with_several_parameters", int64(len(c.Ops)))
+		}
+		// two applications in one process, each with its own format registry
+		for k := m.N(3, 2); k > 0; k-- {
+			c := genApps(r)
+			m.Begin(c)
+			runCase(m, c, true)
+			m.Note("two_application_requests", int64(len(c.AReqs)))
 		}
 	}
 }
